@@ -405,7 +405,7 @@ func (s *State) Expect(m sdk.Msg) *Expect {
 	case *ct.MsgEnableAttester:
 		ok := admin("EnableAttester", s.AM, msg.From, "attester-manager", "C13", "C19")
 		if s.Attesters[msg.Attester] {
-			e.fail("attester-exists", "C13", "C19")
+			e.fail("attester-exists", "C13", "C19", "C01")
 		} else if ok {
 			if _, wf := ref.ParseAttesterString(msg.Attester); !wf {
 				e.dc("attester-not-wellformed")
@@ -417,7 +417,7 @@ func (s *State) Expect(m sdk.Msg) *Expect {
 	case *ct.MsgDisableAttester:
 		admin("DisableAttester", s.AM, msg.From, "attester-manager", "C13", "C19")
 		if !s.Attesters[msg.Attester] {
-			e.fail("attester-missing", "C13", "C19")
+			e.fail("attester-missing", "C13", "C19", "C01")
 		} else {
 			if len(s.Attesters) <= 1 {
 				e.fail("last-attester", "C13")
@@ -720,12 +720,7 @@ func (s *State) expectReplace(e *Expect, msg *ct.MsgReplaceMessage) {
 	}
 	e.Sent = &SentExp{Msg: ref.Message{Version: 0, SrcDomain: 4, DstDomain: om.DstDomain, Nonce: om.Nonce,
 		Sender: om.Sender, Recipient: om.Recipient, Caller: msg.NewDestinationCaller, Body: msg.NewMessageBody}}
-	// The replacement keeps the original's version field too only if it was 0; the
-	// statement says replacements change only body and caller.
-	e.Sent.Msg.Version = om.Version
-	if om.Version != 0 {
-		e.dc("original-version-nonzero")
-	}
+	// every emitted message has version 0 (C06), whatever the version field of the attested original says
 	e.Effect = func(s *State) {}
 	e.SemDiff = "nothing"
 }
@@ -799,7 +794,7 @@ func (s *State) expectReplaceDeposit(e *Expect, msg *ct.MsgReplaceDepositForBurn
 	if len(msg.NewMintRecipient) == 32 {
 		body, _ = ref.EncodeBurn(&ref.BurnMessage{Version: bm.Version, BurnToken: bm.BurnToken, MintRecipient: msg.NewMintRecipient, Amount: bm.Amount, Sender: bm.Sender})
 	}
-	e.Sent = &SentExp{Msg: ref.Message{Version: om.Version, SrcDomain: om.SrcDomain, DstDomain: om.DstDomain, Nonce: om.Nonce,
+	e.Sent = &SentExp{Msg: ref.Message{Version: 0, SrcDomain: om.SrcDomain, DstDomain: om.DstDomain, Nonce: om.Nonce,
 		Sender: om.Sender, Recipient: om.Recipient, Caller: msg.NewDestinationCaller, Body: body}}
 	e.DepositEv = &DepositEvExp{Nonce: om.Nonce, Amount: bm.Amount, Depositor: msg.From, MintRecipient: msg.NewMintRecipient,
 		DstDomain: om.DstDomain, Messenger: om.Recipient, Caller: msg.NewDestinationCaller}
